@@ -96,61 +96,88 @@ def check(run, prog, tier):
 
 def rule_K(run, prog):
     """'sum_a R[a,a,c,d] = 0': for the population columns the Foerster-type tensors get it from updateStructure(), a public
-    method.  With T = sum_i R[i,i,n,n] (the trace, diagonal element d included) and d = R[n,n,n,n] on entry, the statement
-    that writes the diagonal gives d' (linear in T and d), and the column sum afterwards is T - d + d'.  It vanishes for
-    every incoming tensor iff d' = d - T.  (`d -= T - d` gives the sum d: zero only on a fresh tensor, doubled rates on a
-    second call.)"""
+    method.  With T0 = sum_i R[i,i,n,n] (the trace, diagonal element included) and d0 = R[n,n,n,n] on entry, the statements
+    of the depopulation loop are interpreted in order on the diagonal element d (a linear form in T0 and d0; a trace taken
+    after a store to the diagonal sees the new element: trace = T0 - d0 + d).  The column sum after the loop body is
+    T0 - d0 + d; it vanishes for every incoming tensor iff d = d0 - T0.  (`d -= T - d` leaves the sum d0: zero only on a
+    fresh tensor, doubled rates on a second call.)"""
     rid = "C01-K"
     f = prog.func("quantarhei.qm.liouvillespace.relaxationtensor.RelaxationTensor.updateStructure")
     prog.consulted.add(f.relpath)
 
-    def lin(e):
-        """(coefficient of T, coefficient of d, known?)"""
-        if isinstance(e, ast.Call) and (call_name(e) or "").split(".")[-1] == "trace":
-            return (1.0, 0.0)
+    def is_diag(e):
         if isinstance(e, ast.Subscript) and norm(e.value) in ("self._data", "self.data"):
             sl = e.slice.elts if isinstance(e.slice, ast.Tuple) else [e.slice]
             names = [norm(x) for x in sl if not isinstance(x, ast.Slice)]
-            if len(names) == 4 and len(set(names)) == 1:
-                return (0.0, 1.0)
-            return None
+            return len(names) == 4 and len(set(names)) == 1
+        return False
+
+    def lin(e, d):
+        """value of e as (coefficient of T0, coefficient of d0, constant); None when outside the vocabulary"""
+        if isinstance(e, ast.Constant) and isinstance(e.value, (int, float)):
+            return (0.0, 0.0, float(e.value))
+        if isinstance(e, ast.Call) and (call_name(e) or "").split(".")[-1] == "trace":
+            return (1.0 + d[0], -1.0 + d[1], d[2])
+        if is_diag(e):
+            return d
         if isinstance(e, ast.UnaryOp) and isinstance(e.op, ast.USub):
-            a = lin(e.operand)
-            return None if a is None else (-a[0], -a[1])
+            a_ = lin(e.operand, d)
+            return None if a_ is None else (-a_[0], -a_[1], -a_[2])
         if isinstance(e, ast.BinOp) and isinstance(e.op, (ast.Add, ast.Sub)):
-            a, b = lin(e.left), lin(e.right)
-            if a is None or b is None:
+            a_, b_ = lin(e.left, d), lin(e.right, d)
+            if a_ is None or b_ is None:
                 return None
             sg = 1.0 if isinstance(e.op, ast.Add) else -1.0
-            return (a[0] + sg * b[0], a[1] + sg * b[1])
+            return (a_[0] + sg * b_[0], a_[1] + sg * b_[1], a_[2] + sg * b_[2])
+        if isinstance(e, ast.BinOp) and isinstance(e.op, (ast.Mult, ast.Div)):
+            a_, b_ = lin(e.left, d), lin(e.right, d)
+            if a_ is None or b_ is None:
+                return None
+            if b_[0] == 0.0 and b_[1] == 0.0 and (isinstance(e.op, ast.Mult) or b_[2] != 0.0):
+                k_ = b_[2] if isinstance(e.op, ast.Mult) else 1.0 / b_[2]
+                return (a_[0] * k_, a_[1] * k_, a_[2] * k_)
+            if isinstance(e.op, ast.Mult) and a_[0] == 0.0 and a_[1] == 0.0:
+                return (b_[0] * a_[2], b_[1] * a_[2], b_[2] * a_[2])
+            return None
         return None
 
     n = 0
-    for st in walk_no_nested(f.node):
-        if not isinstance(st, (ast.Assign, ast.AugAssign)):
+    for loop in walk_no_nested(f.node):
+        if not isinstance(loop, ast.For):
             continue
-        t_ = st.targets[0] if isinstance(st, ast.Assign) else st.target
-        if lin(t_) != (0.0, 1.0):
-            continue
-        v = lin(st.value)
-        if v is None or v[0] == 0.0:
-            continue            # not the depopulation statement (no trace in it)
+        stores = [st for st in loop.body if isinstance(st, (ast.Assign, ast.AugAssign))
+                  and is_diag(st.targets[0] if isinstance(st, ast.Assign) else st.target)]
+        if not stores or not any(isinstance(c_, ast.Call) and (call_name(c_) or "").split(".")[-1] == "trace"
+                                 for st in stores for c_ in ast.walk(st)):
+            continue            # not the depopulation loop
         n += 1
-        if isinstance(st, ast.AugAssign):
-            sg = 1.0 if isinstance(st.op, ast.Add) else (-1.0 if isinstance(st.op, ast.Sub) else None)
-            new = None if sg is None else (sg * v[0], 1.0 + sg * v[1])
-        else:
-            new = v
-        ok = new is not None and abs(new[0] + 1.0) < 1e-12 and abs(new[1] - 1.0) < 1e-12
+        d = (0.0, 1.0, 0.0)
+        for st in stores:
+            v = lin(st.value, d)
+            if v is None:
+                d = None
+                break
+            if isinstance(st, ast.AugAssign):
+                sg = 1.0 if isinstance(st.op, ast.Add) else (-1.0 if isinstance(st.op, ast.Sub) else None)
+                if sg is None:
+                    d = None
+                    break
+                d = (d[0] + sg * v[0], d[1] + sg * v[1], d[2] + sg * v[2])
+            else:
+                d = v
+        if d is None:
+            raise AnalysisError("C01-K: a statement of the depopulation loop of updateStructure is outside the vocabulary of the "
+                                "rule (trace, diagonal element, constants, + - * /): %s" % [norm(st)[:60] for st in stores])
+        ok = abs(d[0] + 1.0) < 1e-12 and abs(d[1] - 1.0) < 1e-12 and abs(d[2]) < 1e-12
         run.obligation(rid, f.short, ok, key="column-sum:%d" % n,
-                       message="updateStructure writes the diagonal as %s*T + %s*d (T the trace of the column block on entry, d its "
-                               "diagonal element): the column sums to zero afterwards only for d' = d - T; as written the sum is "
-                               "left at %s*T + %s*d - zero on a freshly filled tensor only, and a second call doubles the "
-                               "depopulation rates" % ((new or ("?", "?"))[0], (new or ("?", "?"))[1],
-                                                        (1.0 + new[0]) if new else "?", (new[1] - 1.0) if new else "?"),
-                       loc=f.loc(st))
+                       message="updateStructure leaves the diagonal at %s (T the trace of the column block on entry, d its diagonal "
+                               "element): the column sums to zero afterwards only for d - T; as written the sum is left at %s - zero "
+                               "on a freshly filled tensor only, and a second call doubles the depopulation rates"
+                               % ("%g*T + %g*d + %g" % d if d else "an expression outside T and d",
+                                  "%g*T + %g*d + %g" % (1.0 + d[0], d[1] - 1.0, d[2]) if d else "?"),
+                       loc=f.loc(stores[-1]))
     if n < 2:
-        raise AnalysisError("C01-K: only %d depopulation statements found in updateStructure (rank 4 and rank 5 confirmed)" % n)
+        raise AnalysisError("C01-K: only %d depopulation loops found in updateStructure (rank 4 and rank 5 confirmed)" % n)
 
 
 def rule_J(run, prog):
